@@ -5,9 +5,9 @@ package main
 // sets from which sources, which options it adds (in order), under which conditions.
 
 import (
-	"go/token"
 	"encoding/json"
 	"fmt"
+	"go/token"
 	"os"
 	"path/filepath"
 	"sort"
